@@ -102,6 +102,16 @@ theorem C06_delivery (p : Pool) (t : Nat) (tk : PTask) (h : p.tasks[t]? = some t
     · rename_i hw
       exact ⟨_, by simp [modTask, List.getElem?_modify, h]; rfl, by simp [hu, hw]⟩
 
+/-- **one CancelledError, however often named.** In every pool after every history: the worker of a task has
+observed at most one `CancelledError` (`nSaw` is the ghost counter incremented by the very step that delivers the
+error into the worker and writes the log entry), and none while it has not left its worker normally — however
+often its id was named in `cancel`, `stop`, `cancel_group` or `cancel_all` calls, from wherever. -/
+theorem C06_single_error (base : Nat) (h : History) (i : Nat) (c : Cfg) (p : Pool)
+    (hc : ((World.init base).run h).cfgs[i]? = some c) (hp : ((World.init base).run h).pools[i]? = some p)
+    (t : Nat) (tk : PTask) (ht : p.tasks[t]? = some tk) :
+    tk.nSaw ≤ 1 ∧ ((tk.phase = .created ∨ tk.phase = .inWorker) → tk.nSaw = 0) :=
+  ⟨(lifeAll base h i c p hc hp t tk ht).s1, (lifeAll base h i c p hc hp t tk ht).s0⟩
+
 /-! Non-vacuity -/
 def C06_demo : History :=
   [.mkpool (some 2) none none, .on 0 [] (.apply 2 none Pool.gatedSpec), .run 0 [], .run 0 [], .run 0 []]
